@@ -1,5 +1,6 @@
 """C02 — MT round trip is stable (message level at token granularity; field level via Kani kernels)."""
 import e1
+import e2misc
 import e2tok
 
 
@@ -7,9 +8,12 @@ def run(tier, seed, ev, jobs):
     ev.outside.append("message-level byte equality is decided at token granularity (tag sequence and which token each slot holds); "
                       "the replayed witnesses and the translator-validation corpus are compared byte for byte after re-parsing")
     rc = e2tok.run_tokens("C02", ["unwind", "repr"], tier, seed, ev, jobs)
+    rc = e1.combine(rc, e2misc.run_fieldrt("C02", ev))
     return e1.combine(rc, e1.run_e1("C02", tier, seed, ev, jobs))
 
 
 def replay(path):
     r = e2tok.replay_file(path)
+    if r is None:
+        r = e2misc.replay_file(path)
     return r if r is not None else e1.replay_file(path)
